@@ -55,8 +55,11 @@ def gen_specs(run):
     rng.shuffle(extra)
     confs += extra[: (6 if quick else 80)]
     specs = []
-    for sid, (b, m, T) in enumerate(confs):
-        seeded = (m == 1 and sid % 2 == 1)
+    # seeded single-commitment configurations with at least one folding round (r, s must still come from fresh external randomness)
+    forced = [(2, 1, 1), (4, 1, 2), (8, 1, 3), (64, 1, 1)] if quick else [(b, 1, T) for b in (2, 4, 8, 16, 32, 64) for T in (1, 2, 6)]
+    confs = [(b, m, T, None) for (b, m, T) in confs] + [(b, m, T, True) for (b, m, T) in forced]
+    for sid, (b, m, T, force) in enumerate(confs):
+        seeded = force if force is not None else (m == 1 and sid % 2 == 1)
         base = gen.mk_member(rng, b, m, cap=m, T=T, seed=seeded, rngspec={"kind": "chacha", "seed": 2 * sid})
         other = copy.deepcopy(base)
         other["rng"] = {"kind": "chacha", "seed": 2 * sid + 1}
@@ -73,6 +76,15 @@ def oracle(run, s, o):
         if mo.get("prove") != "ok":
             run.violation(f"prover failed: {mo.get('prove')}", rp)
             return
+    # every transcript RNG the prover builds must be finalised with fresh external randomness (the caller's RNG), never with constant bytes
+    for mi, (ms, mo) in enumerate(zip(s["members"], o["members"])):
+        fins = [x for x in mo.get("merlin", []) if x[0] == "fin"]
+        k_rounds = (b * m).bit_length() - 1
+        if ms["rng"]["kind"] == "chacha":
+            if len(fins) != 3 + k_rounds or any(x[2] == "00" * 32 for x in fins) or len({x[2] for x in fins}) != len(fins):
+                run.violation(f"prover (run {mi + 1}) built a transcript RNG without fresh external randomness: {len(fins)} instances for {k_rounds} rounds, "
+                              f"{sum(1 for x in fins if x[2] == '00' * 32)} finalised with zero bytes (bits={b}, m={m}, T={T}, seeded={seeded})", rp)
+                return
     A, B, C = (slots_of(ms, mo) for ms, mo in zip(s["members"], o["members"]))
     run.count(["c13", b, m, T, seeded], {"bits": b, "m": m, "T": T, "seeded": seeded, "slots": len(A)})
     run.bump("seeded" if seeded else "unseeded")
